@@ -476,23 +476,25 @@ package stream
 //@   ensures digests_frozen: [shared C04] err == nil ==> s.finalSendDigest != nil && s.finalRecvDigest != nil && digestsWF(s) && (old(s.finalSendDigest) != nil ==> s.finalSendDigest == old(s.finalSendDigest)) && (old(s.finalRecvDigest) != nil ==> s.finalRecvDigest == old(s.finalRecvDigest))
 //@   ensures wf_kept: [shared] digestsWF(s)
 
+// (C02: a secret exchanged on a stream that is already encrypting must leave it encrypting - the save/restore pair is
+// what keeps the "encrypted flag off" bypass closed)
 //@ func (*Stream).prepareCryptoForSecret
-//@   props C12 C09
+//@   props C12 C09 C02
 //@   assigns s.cryptoBeforeSecret, s.encrypted
 //@   ensures saved: s.cryptoBeforeSecret == old(s.encrypted)
 //@   ensures on_if_keyed: s.encrypted == (old(s.encrypted) || s.gcm != nil)
 
 //@ func (*Stream).restoreCryptoAfterSecret
-//@   props C12 C09
+//@   props C12 C09 C02
 //@   assigns s.encrypted
 //@   ensures restored: s.encrypted == s.cryptoBeforeSecret
 
 //@ func (*Stream).PrepareCryptoForSecret
-//@   props C09
+//@   props C09 C02
 //@   assigns s.cryptoBeforeSecret, s.encrypted
 //@   ensures saved: s.cryptoBeforeSecret == old(s.encrypted) && s.encrypted == (old(s.encrypted) || s.gcm != nil)
 //@ func (*Stream).RestoreCryptoAfterSecret
-//@   props C09
+//@   props C09 C02
 //@   assigns s.encrypted
 //@   ensures restored: s.encrypted == s.cryptoBeforeSecret
 //@ func (*Stream).CryptoForSecretIsNoop
